@@ -26,7 +26,7 @@ InHd(c, port, serial) == Hd("in", c, port, serial)
 FwdHd(o) == Hd("fwd", o, 0, 0)
 ToSbjHd(j) == Hd("tosbj", j, 0, 0)
 Fuel == 40
-EmptyHeap == [ obs |-> <<>>, ctl |-> <<>>, regs |-> <<>>, inst |-> <<>>, sinkcnt |-> <<>>, out |-> <<>>, fuel |-> Fuel, div |-> FALSE,
+EmptyHeap == [ obs |-> <<>>, ctl |-> <<>>, regs |-> <<>>, sinkcnt |-> <<>>, out |-> <<>>, fuel |-> Fuel, div |-> FALSE,
                sbj |-> <<>>, conn |-> <<>>, slots |-> <<>>, held |-> <<>>, stuck |-> "", rev |-> h_rev ]
 Ev5(o, u, k, v, w) == [o |-> o, u |-> u, k |-> k, v |-> v, w |-> w]
 Ev(o, u, k, v) == Ev5(o, u, k, v, 0)
@@ -159,7 +159,8 @@ SinkCompleteForce(h, c) ==
   IF h.stuck # "" THEN h ELSE Finalize(IF IsSub(h, h.ctl[c].sub) THEN CallComplete(h, h.ctl[c].sub) ELSE h, c)
 
 CtlRec(term, sub) == [term |-> term, sub |-> sub, ups |-> <<>>, serial |-> 0, n |-> 0, has |-> FALSE, acc |-> 0, buf |-> <<>>,
-                      qs |-> <<>>, win |-> 0, flag |-> FALSE, pend |-> <<>>, groups |-> <<>>]
+                      qs |-> <<>>, win |-> 0, flag |-> FALSE, pend |-> <<>>, groups |-> <<>>,
+                      tp |-> [n |-> TRUE, e |-> TRUE, c |-> TRUE]]      \* tp: the slots of tap's own observer (one per subscription)
 NewCtl(h, term, sub) ==
   LET c == Len(h.ctl) + 1
   IN << [h EXCEPT !.ctl = Append(@, CtlRec(term, sub)), !.obs[sub].td = [k |-> "fin", a |-> c, b |-> 0]], c >>
@@ -195,7 +196,7 @@ OnNext(h, o, hd, x) ==
     [] op = "map" -> SinkNext(h, c, ApplyF(t.f, t.a, x))
     [] op = "filter" -> IF ApplyP(t.f, t.a, x) THEN SinkNext(h, c, x) ELSE h
     [] op = "tap" ->
-         LET h1 == IF h.inst[t.id].tn THEN Emit(h, Ev("tap", t.id, "n", x)) ELSE h IN SinkNext(h1, c, x)
+         LET h1 == IF st.tp.n THEN Emit(h, Ev("tap", t.id, "n", x)) ELSE h IN SinkNext(h1, c, x)
     [] op = "take" ->
          LET nn == st.n
              h1 == [h EXCEPT !.ctl[c].n = nn + 1]
@@ -229,7 +230,7 @@ OnNext(h, o, hd, x) ==
     [] op = "all_tail" -> SinkComplete(SinkNext(UpAbort(h, c, hd.s), c, 0), c, hd.s)
     [] op = "contains" -> IF x = t.a THEN SinkComplete(SinkNext(h, c, 1), c, hd.s) ELSE h
     [] op = "seq_eq_tail" -> IF ~AllEq(DecList(x)) THEN SinkComplete(SinkNext(UpAbort(h, c, hd.s), c, 0), c, hd.s) ELSE h
-    [] op = "default_if_empty" -> SinkNext([Touch(h, Lk("die", t.id), "W") EXCEPT !.inst[t.id].flag = TRUE], c, x)
+    [] op = "default_if_empty" -> SinkNext([Touch(h, Lk("die", c), "W") EXCEPT !.ctl[c].flag = TRUE], c, x)
     [] op = "ignore_elements" -> h
     [] op = "buffer_with_count" ->
          LET b == Append(st.buf, x)
@@ -309,7 +310,8 @@ OnError(h, o, hd, e) ==
              nxt == CASE t.f = "just" -> Leaf("just", 9) [] t.f = "empty" -> Leaf("empty", 0)
                       [] t.f = "error" -> Leaf("error", e + 1) [] OTHER -> Leaf("probe", 2)
          IN Subscribe(p[1], nxt, p[2])
-    [] op = "tap" -> SinkError(IF h.inst[t.id].te THEN [Emit(h, Ev("tap", t.id, "e", e)) EXCEPT !.inst[t.id].te = FALSE] ELSE h, c, e)
+    [] op = "tap" -> LET hh == [h EXCEPT !.ctl[c].tp = [n |-> FALSE, e |-> FALSE, c |-> FALSE]]
+                     IN SinkError(IF h.ctl[c].tp.e THEN Emit(hh, Ev("tap", t.id, "e", e)) ELSE hh, c, e)
     [] op = "contains" -> SinkComplete(SinkNext(h, c, 0), c, hd.s)
     [] op = "materialize" -> SinkComplete(SinkNext(h, c, EncMatE(e)), c, hd.s)
     [] op = "amb" ->
@@ -334,8 +336,9 @@ OnComplete(h, o, hd) ==
       op == t.op
       st == h.ctl[c] IN
   CASE op = "default_if_empty" ->
-         LET h0 == Touch(h, Lk("die", t.id), "R") IN SinkComplete(IF ~h0.inst[t.id].flag THEN SinkNext(h0, c, t.a) ELSE h0, c, hd.s)
-    [] op = "tap" -> SinkComplete(IF h.inst[t.id].tc THEN [Emit(h, Ev("tap", t.id, "c", 0)) EXCEPT !.inst[t.id].tc = FALSE] ELSE h, c, hd.s)
+         LET h0 == Touch(h, Lk("die", c), "R") IN SinkComplete(IF ~h0.ctl[c].flag THEN SinkNext(h0, c, t.a) ELSE h0, c, hd.s)
+    [] op = "tap" -> LET hh == [h EXCEPT !.ctl[c].tp = [n |-> FALSE, e |-> FALSE, c |-> FALSE]]
+                     IN SinkComplete(IF st.tp.c THEN Emit(hh, Ev("tap", t.id, "c", 0)) ELSE hh, c, hd.s)
     [] op = "take_last" -> SinkComplete(Release(EmitWhileSub(Acquire(h, Lk("acc", c), "R"), c, st.buf)), c, hd.s)
     [] op \in {"reduce", "sum", "min", "max"} ->
          SinkComplete(IF st.has THEN Release(SinkNext(Acquire(h, Lk("acc", c), "R"), c, st.acc)) ELSE Touch(h, Lk("acc", c), "R"), c, hd.s)
@@ -362,14 +365,13 @@ OnComplete(h, o, hd) ==
     [] op = "concat" -> ConcatNext(h, c)
     [] OTHER -> SinkComplete(h, c, hd.s)
 
-\* concat: the queue of pending sources belongs to the operator instance (shared by all subscriptions)
+\* concat: the queue of pending sources is built per subscription; completion of one source pops and subscribes the next
 ConcatNext(h, c) ==
-  LET t == h.ctl[c].term
-      h0 == Touch(h, Lk("cq", t.id), "R") IN
+  LET h0 == Touch(h, Lk("cq", c), "R") IN
   IF h0.stuck # "" THEN h0
-  ELSE IF h0.inst[t.id].pend = <<>> THEN SinkCompleteForce(h0, c)
-  ELSE LET nxt == Head(h0.inst[t.id].pend)
-           h1 == [Touch(h0, Lk("cq", t.id), "W") EXCEPT !.inst[t.id].pend = Tail(@)]
+  ELSE IF h0.ctl[c].pend = <<>> THEN SinkCompleteForce(h0, c)
+  ELSE LET nxt == Head(h0.ctl[c].pend)
+           h1 == [Touch(h0, Lk("cq", c), "W") EXCEPT !.ctl[c].pend = Tail(@)]
            p == NewObserver(h1, c, 1)
        IN Subscribe(p[1], nxt, p[2])
 
@@ -475,7 +477,8 @@ Subscribe0(h, t, o) ==
          IN Subscribe(p1[1], t.in[1], p1[2])
     [] t.op = "concat" ->
          LET p0 == NewCtl(h, t, o)
-             p1 == NewObserver(p0[1], p0[2], 1)
+             h1 == [p0[1] EXCEPT !.ctl[p0[2]].pend = Tail(t.in)]
+             p1 == NewObserver(h1, p0[2], 1)
          IN Subscribe(p1[1], t.in[1], p1[2])
     [] OTHER ->
          LET p0 == NewCtl(h, t, o)
